@@ -16,6 +16,33 @@ CHECKS = {
     ),
 }
 
+CHECKS.update({
+    "C03": dict(
+        category="exploration",
+        technique="exhaustive enumeration of all decoder-DSL programs up to an op bound executed against the real decode API and compared with a reference interpreter; structural invariants on every tree incl. corpus truncation family",
+        text="(a) Every program of a decoder DSL (struct/array/framed/limited/range/seek with and without restore/nested formats by length, range and to-end/format-or-raw/nested buffers as struct, array, raw and format roots/fail/errorf/duplicate names/non-consuming probes) with <= 3 ops (quick) / <= 4 ops (thorough), nesting <= 3, is run through fq's public decode API on 2 inputs x force off/on; the resulting tree is compared node by node (names, kinds, exact ranges, values, gap fields) with the tree predicted by an independent reference interpreter, and checked against the structural invariants of the property (range inside buffer, compound spans children, unique names, order by start, array numbering, parent links, ByName/Children agreement). (b) every corpus file under format/*/testdata and its truncation/overwrite family decoded with probe and its own format, same invariants.",
+        design_ref="§C03",
+        note="Trusted: the DSL reference interpreter (src/dsl/ref.go, ~400 lines, no import of pkg/decode) and the invariant walker. The position of a nested buffer root inside its parent buffer is not observable through fq and is not judged; the range of a compound without range-defining children (empty or only synthetic children) is only required to lie inside the buffer. Predicted gap fields use the recorded C04 adjacency behaviour so the C04 finding is reported once, under C04.",
+        engine="enum",
+    ),
+    "C04": dict(
+        category="exploration",
+        technique="exhaustive enumeration of all ordered tuples of <= 4 ranges over buffers of <= 7 bits (thorough: <= 9 bits, 5 ranges <= 6 bits) fed to ranges.Gaps with a bitmap oracle; coverage bitmaps of every gap-filled buffer of every DSL and corpus tree",
+        text="ranges.Gaps is called on every ordered tuple of ranges inside the bound (2.6M calls quick) and its output is checked bit by bit: fields and gaps cover [0,L), no gap overlaps a field, gaps are sorted, disjoint, non-empty and inside total. For decode trees, every buffer decoded with gap filling (top level, length/range delimited sub-formats, nested format buffers) of every DSL program and corpus decode (incl. failed decodes) gets a coverage bitmap: every bit in a non-gap leaf or a gap leaf, no gap leaf overlapping a non-gap leaf, gap content equal to the input bits of its range.",
+        design_ref="§C04",
+        note="Trusted: the bitmap oracle. The recorded finding (one-bit hole swallowed by the off-by-one adjacency test, pinned by pkg/ranges/ranges_test.go) is recognised only when the output equals a reference merge with tolerance 1 exactly; any other wrong output alarms.",
+        engine="enum",
+    ),
+    "C09": dict(
+        category="exploration",
+        technique="exhaustive enumeration of all binary expression trees up to depth 3 (thorough 4) over 18 leaves x 113 operators evaluated in-process, compared with an independent reference bit-string evaluator",
+        text="Every expression tree of depth <= 3 (thorough: depth <= 4 except array nodes over depth-3 children) over 18 leaves x 113 operators + [x,y] is evaluated by fq in-process and compared value-for-value (bits, unit, bit-accurate start; error versus value) with a reference evaluator written from doc/usage.md. The split/concat law is checked for every k and both units; a textual section re-evaluates a fixed subset as full programs.",
+        design_ref="§C09",
+        note="Assumptions A1-A6 are written into evidence/C09.json (floor/ceil of unaligned keys, zero fill side, fractional truncation, out of range index null, range variants start, decode value contribution). Negative top-level numbers, tovalue of non whole-byte binaries and non-UTF-8 code point operations are outside the documented domain and counted as unmodelled.",
+        engine="enum",
+    ),
+})
+
 NOT_YET = {
 }
 
